@@ -17,7 +17,7 @@ Check (C01_type_safety : forall Sg, sig_sound Sg ->
 Check (C01_model_sig_sound : sig_sound model_sig).
 Check (C01_type_safety_model : forall n e T, has_type model_sig [] e T -> safe_outcome (run n e)).
 Check (C01_typed_result_in_type : forall Sg, sig_sound Sg ->
-  forall n e T v, has_type Sg [] e T -> eval n MTyped [] e = Ok v -> V T [] v).
+  forall n e T v, has_type Sg [] e T -> eval n MTyped [] e = Ok v -> V T [] [] v).
 
 Check (C01_checker_sound : forall Sg a T, check_deriv Sg a T = true -> has_type Sg [] (erase a) T).
 Check (C01_certified_safe : forall a T n, check_deriv model_sig a T = true -> safe_outcome (run n (erase a))).
